@@ -14,7 +14,7 @@ RULE = ("case = an iterable expression: base (Array/List/Tuple of Int length 0..
         "histories, Range with 0-3 arguments incl. omitted '_', either sign of step, zero step, empty/inverted intervals, spans "
         "not divisible by the step, values also shifted to 2^31 / 2^32 / 2^40 / 2^59 neighbourhoods; Table/Tree of Int keys "
         "both as bases of views (expected order = the order a direct walk of that Table/Tree shows) and walked directly with "
-        "up to 70 keys after set/rem/clear-refill histories) wrapped in up to 3 views: Slice (1-4 arguments, '_', "
+        "up to 70 keys after set/rem/clear-refill histories; in half of these cases every drawn removal names a key, so that long removal runs take a Table down across its size thresholds) wrapped in up to 3 views: Slice (1-4 arguments, '_', "
         "negative-from-end, beyond both ends, step +-1..+-5), reverse, Zip of 1-4 iterables of unequal length, enumerate, "
         "Filter (all/none/even/odd/m3/pos), Map (dbl/neg/id), a Range or Slice that was assigned from another one; each view "
         "built both with new(...) and with the stack-macro constructors. A third family walks an Array/List/Tuple of "
